@@ -22,6 +22,11 @@ import GrinVerif.Model.DecSer
     codec hs self                        => err PeerWithSelf
     codec timed <ver> <[ms:frag,ms:frag,…]> => [ev;…;pongs:<n>;closed:<0|1>]   (C19, real `conn::listen` reader thread:
                                           fragments written after real pauses of `ms` milliseconds; model = `runT`)
+    codec peer <ver> <now> <[ms:frag,…]> => [ev;…;pongs:<n>;closed:<0|1>]   (C19, a real `Peer::accept` after a real
+                                          Hand/Shake: Protocol + TrackingAdapter + a recording NetAdapter; events
+                                          ping:<height> | getpeeraddrs:<caps> | payload:<t>:<len>)
+    codec rmsgv <hand|shake|peeraddrs> <[frag,…]> => ok <canon> | err <E>   (C19, `msg::read_message` on a fragmented
+                                          TCP stream: the value read, re-serialised)
     codec ring new                       => ok            (C19, ONE long-lived real `Handshake`)
     codec ring push <nonce>              => <outcome of that `initiate()`>   (nonce read off the wire)
     codec ring self <nonce>              => err PeerWithSelf   (the same `Handshake` dials its own `accept`)
@@ -372,6 +377,50 @@ def runEventsT (env : Env DBT DH) : Nat → Codec DH → TStream → Bytes → N
     | .panic _ => ["panic"]
     | .hang => ["hang"]
 
+/-! ### C19: the real `Peer` (Protocol + TrackingAdapter) behind the reader thread -/
+
+/-- bodies as the node decodes them: transactions, blocks and compact blocks through the decoders of
+`Model/DecSer.lean` (value kept as the raw body), everything else as in `drvEnvT` -/
+def drvEnvP (ver : Nat) (now : Int) : Env DBT DH :=
+  let c := mkCfg ver
+  let e : GV.DecSer.Env := { cfg := c, ct := .automatedTesting, now := now, ftl := GV.Gen.DEFAULT_FUTURE_TIME_LIMIT,
+                             powOk := fun _ => true }
+  let viaDec {α : Type} (d : Dec α) (raw : Bytes) : Except SerErr DBT :=
+    match d raw with
+    | .ok _ _ _ => .ok (.payload raw)
+    | .err er _ => .error er
+    | .panic _ _ => .error .corrupted
+  { (drvEnvT ver) with
+    decBody := fun t raw =>
+      if t = GV.Gen.Msg.T_Transaction ∨ t = GV.Gen.Msg.T_StemTransaction then viaDec (rTransaction .buf c) raw
+      else if t = GV.Gen.Msg.T_Block then viaDec (rUntrustedBlock .buf e) raw
+      else if t = GV.Gen.Msg.T_CompactBlock then viaDec (rUntrustedCompactBlock .buf e) raw
+      else (drvEnvT ver).decBody t raw }
+
+/-- what the recording `NetAdapter` behind `Protocol` + `TrackingAdapter` sees of the `runT` loop -/
+def runEventsP (env : Env DBT DH) : Nat → Codec DH → TStream → Nat → List String
+  | 0, _, _, _ => ["hang"]
+  | fuel+1, c, s, pongs =>
+    let o := readT env c s
+    match o.res with
+    | .msg m =>
+      match m with
+      | .body t (.pingPong _ h) =>
+        if t = GV.Gen.Msg.T_Ping then s!"ping:{h}" :: runEventsP env fuel o.codec o.sock (pongs + 1)
+        else s!"pong:{h}" :: runEventsP env fuel o.codec o.sock pongs
+      | .body _ (.getPeerAddrs caps) => s!"getpeeraddrs:{caps}" :: runEventsP env fuel o.codec o.sock pongs
+      | .body t (.payload raw) => s!"payload:{t}:{raw.length}" :: runEventsP env fuel o.codec o.sock pongs
+      | .body t _ => s!"other:{t}" :: runEventsP env fuel o.codec o.sock pongs
+      | _ => runEventsP env fuel o.codec o.sock pongs
+    | .err e =>
+      match tryBreak (B := DBT) (H := DH) (.err e) with
+      | .retry => runEventsP env fuel o.codec o.sock pongs
+      | _ =>
+        let closed := if e = .conn ∧ o.sock.isEmpty ∧ o.codec.state = .none ∧ o.codec.buffer.isEmpty then 0 else 1
+        [s!"pongs:{pongs}", s!"closed:{closed}"]
+    | .panic _ => ["panic"]
+    | .hang => ["hang"]
+
 def LOCAL_PROTOCOL_VERSION' : Nat := 1000
 
 /-- the decision of `accept` for a `Hand` with our genesis carrying `nonce`, against the ring -/
@@ -427,6 +476,31 @@ def handle (st : St) (args : List String) (impl : String) : St × Verdict :=
       let evs := runEventsT (drvEnvT ver) 1000000 Codec.new (tagSched sc) [] 0
       (st, cmpModel s!"[{";".intercalate evs}]" impl)
     | _, _ => (st, .unknown)
+  | ["peer", ver, now, sched] =>
+    match nat? ver, now.toInt?, parseSched sched with
+    | some ver, some now, some sc =>
+      let evs := runEventsP (drvEnvP ver now) 1000000 Codec.new (tagSched sc) 0
+      (st, cmpModel s!"[{";".intercalate evs}]" impl)
+    | _, _, _ => (st, .unknown)
+  | ["rmsgv", kind, frags] =>
+    match parseHexList frags with
+    | some fr =>
+      let bs := fr.flatten
+      let model : Option String := match kind with
+        | "hand" =>
+          let o := readMessage netAutomatedTesting GV.Gen.Msg.T_Hand (decHand .bin) bs
+          some (match o.res with | .ok h => "ok " ++ toHex (encHand h) | .error e => "err " ++ e.name)
+        | "shake" =>
+          let o := readMessage netAutomatedTesting GV.Gen.Msg.T_Shake (decShake .bin) bs
+          some (match o.res with | .ok h => "ok " ++ toHex (encShake h) | .error e => "err " ++ e.name)
+        | "peeraddrs" =>
+          let o := readMessage netAutomatedTesting GV.Gen.Msg.T_PeerAddrs (decPeerAddrs (P := Unit) .bin) bs
+          some (match o.res with | .ok b => "ok " ++ toHex (encBody (fun _ => []) b) | .error e => "err " ++ e.name)
+        | _ => none
+      match model with
+      | some m => (st, cmpModel m impl)
+      | none => (st, .unknown)
+    | none => (st, .unknown)
   | ["ring", "new"] => ({ st with ring := [] }, cmpModel "ok" impl)
   | ["ring", "push", nonce] =>
     match nat? nonce with
